@@ -275,7 +275,7 @@ SPLIT_POST(_next_push_index, 1, 0, 1)
 /* loop contract of the futex wait loop (block_until_reach_expected_version_slow), timeout == nullptr instance:
  * partial correctness only -- the loop is left only with the observed word showing the expected version */
 //@loop Q_SlotFutex_block_until_reach_expected_version_slow 1
-//@  __CPROVER_assigns(current_version_and_waiters, version, *g_w, vf_errno_storage, g_sleeps, timeout, modified_timeout, __t1)
+//@  __CPROVER_assigns(current_version_and_waiters, version, *g_w, vf_errno_storage, g_sleeps, timeout, modified_timeout)
 //@  __CPROVER_loop_invariant(timeout == (struct timespec *)0)
 //@  __CPROVER_loop_invariant(version == (unsigned short)current_version_and_waiters)
 //@  __CPROVER_loop_invariant(VER(current_version_and_waiters) != g_E || VER(*g_w) == g_E)
